@@ -62,7 +62,7 @@ def run_property(prop, tier, replay=None):
                         m.get("properties", ()), m.get("constraint"), m.get("view"))
             r = C.run_tlc(m["module"], cfg, wd, workers=m.get("workers", 6),
                           timeout=m.get("timeout_" + tier, 1500 if tier == "thorough" else 600),
-                          coverage=True, heap=m.get("heap", "12g"),
+                          coverage=m.get("coverage", m["module"] != "MC_Server"), heap=m.get("heap", "12g"),
                           simulate=m.get("simulate_" + tier), depth=m.get("depth"))
             mc_results.append((m, consts, r))
 
@@ -85,40 +85,63 @@ def run_property(prop, tier, replay=None):
                     if fnd.get("family") == fname:
                         scheds.append(dict(id="finding:" + fnd["finding"], cfg=fnd.get("cfg", {}),
                                            steps=fnd["steps"]))
+                if "fixed" in fam:
+                    scheds += fam["fixed"](tier)
                 for ex in fam.get("exports", []):
                     consts = dict(ex["constants"])
                     consts.update(ex.get(tier, {}))
                     cfg = os.path.join(wd, "%s-export-%s.cfg" % (ex["module"], ex.get("name", "x")))
                     C.write_cfg(cfg, ex.get("spec", "Spec"), consts, ex.get("invariants", ("ExportJson",)),
-                                (), ex.get("constraint"), ex.get("view", "View"))
+                                (), ex.get("constraint"), ex.get("view", "View") or None)
+                    got = []
+                    if not ex.get("simulate_only"):
+                        r = C.run_tlc(ex["module"], cfg, wd, workers=ex.get("workers", 4),
+                                      timeout=ex.get("timeout", 600), heap="6g")
+                        got += C.extract_scheds(r.out)
                     sim = ex.get("simulate_" + tier)
-                    r = C.run_tlc(ex["module"], cfg, wd, workers=1 if sim else ex.get("workers", 4),
-                                  timeout=ex.get("timeout", 600), simulate=sim, depth=ex.get("depth"),
-                                  seed=seed if sim else None, heap="6g")
-                    got = C.extract_scheds(r.out)
+                    if sim:
+                        r = C.run_tlc(ex["module"], cfg, wd, workers=1, timeout=ex.get("timeout", 600),
+                                      simulate=sim, depth=ex.get("depth", 200), seed=seed, heap="4g")
+                        got += C.extract_scheds(r.out)
                     if not got:
                         C.log(r.out[-2000:])
                         raise C.ToolError("no schedules exported by %s" % ex["module"])
                     seen = set()
                     k = 0
+                    groups = {}
                     for g in got:
                         h = C.sched_hash(g)
                         if h in seen:
                             continue
                         seen.add(h)
-                        steps, expect = ex["convert"](g)
+                        tags = tuple(sorted(g.get("tags", []))) if isinstance(g, dict) else ()
                         k += 1
-                        scheds.append(dict(id="tlc:%s:%d" % (ex.get("name", "x"), k),
-                                           cfg=ex["cfg_of"](consts), steps=steps, expect=expect))
-                    cap = ex.get("cap_" + tier)
-                    notes.append("export %s: %d behaviours, %d distinct schedules" % (ex.get("name", "x"), len(got), k))
-                    if cap and len(scheds) > cap:
-                        import random as _r
-                        rr = _r.Random(seed)
-                        pinned = [s for s in scheds if s["id"].startswith("finding:")]
-                        rest = [s for s in scheds if not s["id"].startswith("finding:")]
-                        rr.shuffle(rest)
-                        scheds = pinned + rest[:cap]
+                        if "to_sched" in ex:
+                            sc = ex["to_sched"](g, consts)
+                            sc["id"] = "tlc:%s:%d" % (ex.get("name", "x"), k)
+                            groups.setdefault(tuple(sc.get("tags", ())), []).append(sc)
+                            continue
+                        steps, expect = ex["convert"](g["steps"] if isinstance(g, dict) else g)
+                        groups.setdefault(tags, []).append(
+                            dict(id="tlc:%s:%d" % (ex.get("name", "x"), k), cfg=ex["cfg_of"](consts),
+                                 steps=steps, expect=expect, tags=list(tags)))
+                    notes.append("export %s: %d behaviours, %d distinct schedules, %d tag sets" % (
+                        ex.get("name", "x"), len(got), k, len(groups)))
+                    # take schedules round-robin over the tag sets (rare combinations first), up to the cap
+                    import random as _r
+                    rr = _r.Random(seed)
+                    cap = ex.get("cap_" + tier) or k
+                    order = sorted(groups.keys(), key=lambda t: (len(groups[t]), t))
+                    for t in order:
+                        rr.shuffle(groups[t])
+                    picked = []
+                    i = 0
+                    while len(picked) < cap and any(groups[t] for t in order):
+                        t = order[i % len(order)]
+                        if groups[t]:
+                            picked.append(groups[t].pop())
+                        i += 1
+                    scheds += picked
             sf = os.path.join(wd, "%s.sched.jsonl" % fname)
             with open(sf, "w") as f:
                 for s in scheds:
